@@ -64,6 +64,7 @@ Fixpoint expand (e : pexpr) : rexpr :=
 Definition lit_same_kind (a b : lit) : bool :=
   match a, b with
   | LNull, LNull | LInt _, LInt _ | LFloat _ _, LFloat _ _ | LBool _, LBool _ | LStr _, LStr _ => true
+  | LTemporal k _, LTemporal k' _ => N.eqb k k'      (* `left.as_ref() == right.as_ref()`: the same variant *)
   | _, _ => false
   end.
 Definition pow2 (k : N) : Z := Z.pow 2 (Z.of_N k).
@@ -74,6 +75,7 @@ Definition lit_eqb (a b : lit) : bool :=
   | LFloat x kx, LFloat y ky => Z.eqb (x * pow2 ky) (y * pow2 kx)
   | LBool x, LBool y => Bool.eqb x y
   | LStr x, LStr y => leqb x y
+  | LTemporal k x, LTemporal k' y => N.eqb k k' && leqb x y     (* derived PartialEq: the spelling *)
   | _, _ => false
   end.
 Definition is_null (e : rexpr) := match e with RLit LNull => true | _ => false end.
@@ -94,12 +96,15 @@ Definition static_eval_op (n : str) (args : list rexpr) : rexpr :=
     end
   else if leqb n n_eq then
     match args with
-    | [RLit l; RLit r] => if lit_same_kind l r then RLit (LBool (lit_eqb l r)) else keep
+    | [RLit l; RLit r] =>
+        (* /repo 1aeb8d9: `&& !is_temporal(left)` -- two date/time literals are never compared at compile time
+           (their PartialEq compares spellings, not instants) *)
+        if lit_same_kind l r && negb (is_temporal_lit l) then RLit (LBool (lit_eqb l r)) else keep
     | _ => keep
     end
   else if leqb n n_ne then
     match args with
-    | [RLit l; RLit r] => if lit_same_kind l r then RLit (LBool (negb (lit_eqb l r))) else keep
+    | [RLit l; RLit r] => if lit_same_kind l r && negb (is_temporal_lit l) then RLit (LBool (negb (lit_eqb l r))) else keep
     | _ => keep
     end
   else if leqb n n_and then
